@@ -96,6 +96,11 @@ def run(ctx, rep):
     rep.rule("R02-SATURATED", "reducers that identify builtin arguments by stack position (subtract->add flip, constant folder) test arg_stack.len() == arity before rewriting", floor=2)
     rep.guarded("R02-VALUEFORM", lambda: r_valueform(sh, rep))
     rep.guarded("R02-SATURATED", lambda: r_saturated(sh, rep))
+    from . import c04
+    rep.rule("R02-BIGINTSITE", "no reducer decodes Data big integers by hand (shared with C04)", floor=2)
+    rep.guarded("R02-BIGINTSITE", lambda: c04.r_bigintsites(sh, rep, "R02-BIGINTSITE"))
+    rep.rule("R02-BLSNAMES", "bls381_compressor names G1 constants blst_p1_* and G2 constants blst_p2_* on every path", floor=2)
+    rep.guarded("R02-BLSNAMES", lambda: r_blsnames(sh, rep))
     rep.guarded("R02-CASE", lambda: r_case(sh, rep))
     rep.guarded("R02-WALK", lambda: r_walk(sh, rep))
     rep.guarded("R02-ONLY", lambda: r_only(sh, rep))
@@ -493,3 +498,34 @@ def r_saturated(sh, rep):
             rep.check(ok, "R02-SATURATED", "%s#Builtin-arm#saturation-test" % name, sh.loc(SH, arm), "%s rewrites a builtin node using the arguments found on arg_stack but no longer tests that the application is saturated (`arg_stack.len() == arity`): on a partial application (which builtin_curry_reducer creates by hoisting `[(builtin f) c]`) the last argument on the stack is not the builtin's last parameter, so the rewrite changes which operand is negated / folded" % name, sample={"assignments": len(assigns)})
         if n_arm == 0:
             rep.bad("R02-SATURATED", "%s#Builtin-arm#missing" % name, sh.loc(SH, f), "no rewriting Term::Builtin arm found in %s (anchor)" % name)
+
+
+# ---------------------------------------------------------------------------------------------------------
+# R02-BLSNAMES: the compressor's replacement variables stay in their group's namespace
+# ---------------------------------------------------------------------------------------------------------
+def r_blsnames(sh, rep):
+    fj = sh.file(SH)
+    f = [fn for q, fn in all_fns(fj) if q.endswith("::bls381_compressor")]
+    if not f:
+        raise AnchorMissing("fn bls381_compressor")
+    rep.touched(SH, "Term::bls381_compressor")
+    n = 0
+    for m in matches_in(f[0]["body"]):
+        for a in m["arms"]:
+            src = sh.nsrc(SH, a["pat"])
+            grp = "1" if "Bls12_381G1Element" in src else "2" if "Bls12_381G2Element" in src else None
+            if grp is None:
+                continue
+            n += 1
+            names = []
+            for x in walk(a["body"]):
+                if x["k"] == "Macro" and last(x.get("path", "")) == "format":
+                    for l in walk(x.get("args", [])):
+                        if l["k"] == "Lit" and l.get("lk") == "str" and l["v"].startswith("blst_p"):
+                            names.append(l["v"])
+                    if "tokens" in x:
+                        names += [t["v"].strip('"') for t in x["tokens"] if t["t"] == "l" and t["v"].startswith('"blst_p')]
+            wrong = [nm for nm in names if not nm.startswith("blst_p%s_" % grp)]
+            rep.check(bool(names) and not wrong, "R02-BLSNAMES", "bls381_compressor#G%s" % grp, sh.loc(SH, a), "the arm for G%s constants replaces a constant by a variable named %s: variables of the other group are bound to points of the other curve (or not bound at all), so the optimised program fails where the original returns a value" % (grp, wrong or "nothing"), sample={"names": names})
+    if n < 2:
+        rep.bad("R02-BLSNAMES", "bls381_compressor#arms", sh.loc(SH, f[0]), "expected one arm per BLS group in bls381_compressor")
